@@ -12,6 +12,7 @@ def check(model, R, tier):
     K.check_scatter(model, sub, [model.func(CT + '.' + n) for n in ('col2im', 'col2im_v2', 'place_windows')], 'x', floor=3)
     CP.check_pairs_pe(model, R, 'C16', frames)
     K.check_index_width(model, R, 'C16')
+    CP.check_index_axes(model, R, 'C16')
     return dict(
         explanation='Numerical equality of the three implementations is a value property and is not decided. Decided, by partially evaluating every conv_tools routine on a symbolic (N, C, H, W) input with symbolic geometry '
                     '(shape-level interpretation of NumPy, terms compared in polynomial normal form): one output-size formula at every window count (helpers, loop bounds, ndindex extents, strided-view shape, buffers); int geometry is '
